@@ -272,6 +272,8 @@ def deployInterchainToken (st : State) (ctx : Ctx) (minter : Option Bytes) (name
 def deployTokenCallback (st : State) (result : Option Bytes) : Out :=
   match result with
   | some tokenId =>
+    -- a second issuance that was in flight never replaces the recorded token
+    if !st.tokenIdentifier.isEmpty then { st := st } else
     { st := { st with tokenIdentifier := tokenId },
       events := [⟨"interchain_token_deployed_event", [st.tokenId, tokenId], [[]]⟩] }
   | none => { st := st, events := [⟨"interchain_token_deployment_failed", [], [[]]⟩] }
